@@ -226,6 +226,12 @@ def check_corruptions(spec, ctx):
     expect_refusal(ctx, "SingleInterval:start>end", lambda: SingleInterval(b, a, Strand.PLUS), valid_location)
     expect_refusal(ctx, "SingleInterval:negative", lambda: SingleInterval(-1 - a, b, Strand.PLUS), valid_location)
     expect_refusal(ctx, "SingleInterval:beyond_sequence", lambda: SingleInterval(a, n + 1 + b, Strand.PLUS, PS), valid_location)
+    # ... a zero-length location is a location too: beyond the end of the sequence it is refused like any other (at the very end it
+    # is inside), and so is a parent given such a placement
+    expect_refusal(ctx, "SingleInterval:zero_length_beyond_sequence", lambda: SingleInterval(n + 1 + b, n + 1 + b, Strand.PLUS, PS), lambda x: "zero-length location %s accepted on a sequence of %d" % (x, n))
+    expect_refusal(ctx, "CompoundInterval:zero_length_blocks_beyond_sequence", lambda: CompoundInterval([n + 2, n + 5], [n + 2, n + 5], Strand.MINUS, PS), lambda x: "accepted %s" % x)
+    expect_refusal(ctx, "Parent:zero_length_location_beyond_sequence", lambda: Parent(sequence=Sequence(g, Alphabet.NT_STRICT), location=SingleInterval(n + 3, n + 3, Strand.PLUS)), lambda x: "accepted")
+    attempt(ctx, "SingleInterval:zero_length_at_the_very_end", lambda: SingleInterval(n, n, Strand.PLUS, PS))
     expect_refusal(ctx, "CompoundInterval:unequal_lengths", lambda: CompoundInterval([a, b], [b], Strand.PLUS), valid_location)
     expect_refusal(ctx, "CompoundInterval:empty_lists", lambda: CompoundInterval([], [], Strand.PLUS), valid_location)
     expect_refusal(ctx, "CompoundInterval:start>end", lambda: CompoundInterval([a, b + 2], [b, b + 1], Strand.MINUS), valid_location)
